@@ -93,20 +93,31 @@ func TestVerifC18(t *testing.T) {
 			h.mon.OnMessage = func(ndp.Message) { onMsgA.Add(1) }
 			h.settle()
 			run := 0
+			var lastRA *ndp.RouterAdvertisement
+			var lastFrom netip.Addr
 			for k := 0; k < nmsg && viol == ""; k++ {
 				time.Sleep(steps[sr.Intn(len(steps))])
 				from := netip.MustParseAddr(senders[sr.Intn(len(senders))])
 				host := from.WithZone("").String()
 				var msg ndp.Message
-				switch sr.Intn(6) {
-				case 0:
-					msg = vRS(sr.Intn(2) == 0)
-				case 1:
-					msg = &ndp.NeighborSolicitation{TargetAddress: netip.MustParseAddr("fe80::5")}
-				case 2:
-					msg = &ndp.NeighborAdvertisement{TargetAddress: netip.MustParseAddr("fe80::6")}
-				default:
-					msg = vMonRA(sr)
+				if lastRA != nil && sr.Intn(4) == 0 {
+					// routers repeat the same RA periodically: an identical message from the
+					// same sender must move every expiry timestamp to the new receipt time
+					from, host, msg = lastFrom, lastFrom.WithZone("").String(), lastRA
+				} else {
+					switch sr.Intn(6) {
+					case 0:
+						msg = vRS(sr.Intn(2) == 0)
+					case 1:
+						msg = &ndp.NeighborSolicitation{TargetAddress: netip.MustParseAddr("fe80::5")}
+					case 2:
+						msg = &ndp.NeighborAdvertisement{TargetAddress: netip.MustParseAddr("fe80::6")}
+					default:
+						msg = vMonRA(sr)
+					}
+				}
+				if ra, ok := msg.(*ndp.RouterAdvertisement); ok {
+					lastRA, lastFrom = ra, from
 				}
 				hop := 255
 				if invalidRate > 0 && (run > 0 && run < 9 && sr.Intn(3) != 0 || sr.Intn(invalidRate+2) == 0) {
